@@ -7,7 +7,12 @@ from ..runner import Env, Outcome
 
 THEOREMS = ["C06_delayed_retry_parked", "C06_not_before_delay", "C06_only_timer_releases", "C06_refuted_witness",
             "C06_refuted", "C06_delay_index_actual", "C06_source_shape", "C06_results_keep_retry_record", "C06_collect_rerun_keeps_retry_number",
-            "C06_stale_collect_reruns_in_place", "C06_failure_after_rerun_counts_on"]
+            "C06_stale_collect_reruns_in_place", "C06_failure_after_rerun_counts_on",
+            # every history (runner invariant, WfProofs/RunnerRetryDelay.lean) and every chain / parameter / retry number
+            "C06_retry_never_before_its_delay", "C06_pending_retries_wait_out_their_delay",
+            "C06_fresh_run_retry_never_before_its_delay", "C06_every_action_keeps_delays",
+            "C06_chain_link_of_retry", "C06_chain_head_never_used", "C06_refuted_for_every_such_chain",
+            "C06_exponential_delay_of_retry", "C06_first_retry_delays"]
 LEAN_TARGETS = ["WfProps.C06"]
 EXPLANATION = (
     "Proved on the runner LTS: a retry granted with delay d>0 at time t is parked in the timer heap for t+d and only the "
